@@ -103,6 +103,21 @@ def read_log(path):
     return out
 
 
+def read_rows_of_copy(wd):
+    """What the database holds after the kill, read from a COPY of its files: opening (and closing) the
+    original would checkpoint the write-ahead log and hand the rerun a tidier database than a crash leaves."""
+    if not os.path.exists(os.path.join(wd, 'crawl.db')):
+        return []
+    cp = tempfile.mkdtemp(prefix='wpull-verif-c03-copy-')
+    try:
+        for n in os.listdir(wd):
+            if n.startswith('crawl.db'):
+                shutil.copy2(os.path.join(wd, n), os.path.join(cp, n))
+        return cc.appsim.read_rows(os.path.join(cp, 'crawl.db'))
+    finally:
+        shutil.rmtree(cp, ignore_errors=True)
+
+
 def one_kill(args):
     """Worker: killed run + rerun for one kill point. Returns a result dict."""
     site_desc, opts, conc, seed, kill = args
@@ -111,7 +126,7 @@ def one_kill(args):
         log1 = os.path.join(wd, 'run1.log')
         log2 = os.path.join(wd, 'run2.log')
         rc1 = spawn(site_desc, opts, conc, seed, wd, log1, kill)
-        rows_after_kill = cc.appsim.read_rows(os.path.join(wd, 'crawl.db')) if os.path.exists(os.path.join(wd, 'crawl.db')) else []
+        rows_after_kill = read_rows_of_copy(wd)
         rc2 = spawn(site_desc, opts, conc, seed + 1, wd, log2, None)
         rows_final = cc.appsim.read_rows(os.path.join(wd, 'crawl.db')) if os.path.exists(os.path.join(wd, 'crawl.db')) else []
         ev1, ev2 = read_log(log1), read_log(log2)
